@@ -383,6 +383,10 @@ impl MonoMidiReceiver {
         )
     }
 
+    /// the stored fields behind the getters, unprocessed: `(note_num, velocity, pitch_bend, gate)`
+    pub fn verif_raw(&self) -> (u8, f32, f32, bool) {
+        (self.note_num, self.velocity, self.pitch_bend, self.gate)
+    }
     pub fn verif_parser(&self) -> &MidiByteStreamParser {
         &self.parser
     }
